@@ -200,3 +200,30 @@ pub fn prepare(ty: &Ty) {
 pub fn decode_only(ty: &Ty, bytes: &[u8]) -> Result<Live, ErrInfo> {
     live::decode(ty, bytes).map_err(|e| errinfo(&e))
 }
+
+/// the type list a libFuzzer target selects from with its first two input bytes (shared with vcheck's replay)
+pub fn fuzz_types(target: &str) -> Vec<Ty> {
+    match target {
+        "decode_unsafe_paths" => vmodel::typelists::unsafe_path_types(),
+        _ => {
+            let mut v = vmodel::typelists::exhaustive_types();
+            // compiled (derive-macro) declarations, except the recursive ones (known finding F13: unbounded recursion)
+            let (seed, nh, nf) = compiled::GENERATED_PARAMS;
+            for d in vmodel::declgen::compiled_batch(seed, nh, nf).all() {
+                let t = Ty::Adt(d);
+                if !t.any(&|x| matches!(x, Ty::Rec(_))) {
+                    v.push(t);
+                }
+            }
+            v
+        }
+    }
+}
+
+pub fn fuzz_select<'a>(types: &'a [Ty], data: &'a [u8]) -> Option<(&'a Ty, &'a [u8])> {
+    if data.len() < 2 {
+        return None;
+    }
+    let sel = u16::from_le_bytes([data[0], data[1]]) as usize;
+    Some((&types[sel % types.len()], &data[2..]))
+}
